@@ -648,8 +648,32 @@ def judge_highlight(sh, env, source, label):
 
 def plan(tier, seed):
     if tier == "quick":
-        return [{"part": "renders", "n": 150} for _ in range(8)] + [{"part": "corpus", "slice": [0, 1]}]
-    return [{"part": "renders", "n": 4300} for _ in range(14)] + [{"part": "corpus", "slice": [i, 2]} for i in range(2)]
+        return [{"part": "renders", "n": 150, "first": k == 0} for k in range(8)] + [{"part": "corpus", "slice": [0, 1]}]
+    return [{"part": "renders", "n": 4300, "first": k == 0} for k in range(14)] + [{"part": "corpus", "slice": [i, 2]} for i in range(2)]
+
+
+def judge_never_raised(sh, env):
+    """An exception object that was built but never raised (no traceback at all): still 'an exception of any origin'."""
+    for msg_class in ("plain", "multiline", "unicode", "closing", "lt", "ends-backslash", "empty"):
+        msg = MESSAGES[msg_class]
+        for exc in (ValueError(msg), KeyError(msg), type("MadeUp", (Exception,), {})(msg)):
+            cause = RuntimeError("cause, never raised either")
+            exc.__cause__ = cause if msg_class == "plain" else None
+            for verbosity in (0, 1, 2, 4):
+                for simple in (False, True):
+                    rec = {"kind": "never-raised", "type": type(exc).__name__, "msg_class": msg_class, "verbosity": verbosity, "simple": simple}
+                    sh.case(("never-raised", type(exc).__name__, msg_class, verbosity, simple), True)
+                    try:
+                        out = render(env, exc, verbosity, False, True, simple)
+                    except Exception as e:
+                        sh.violate("render-raises", rec, "render of a never-raised exception raised %r" % (e,))
+                        continue
+                    sh.count("never_raised_renders")
+                    text = SGR.sub("", out)
+                    if normalise(str(exc)) not in normalise(text):
+                        sh.violate("message-missing", rec, "message %r not found in the report %r of a never-raised exception" % (normalise(str(exc))[:60], text[:120]))
+                    elif not simple and type(exc).__name__ not in text:
+                        sh.violate("class-missing", rec, "class name %s not in the report %r of a never-raised exception" % (type(exc).__name__, text[:120]))
 
 
 def run(sh, spec):
@@ -658,6 +682,8 @@ def run(sh, spec):
     try:
         env = Env(work)
         if spec["part"] == "renders":
+            if spec.get("first"):
+                judge_never_raised(sh, env)
             run_renders(sh, env, spec["n"])
         else:
             files = corpus_files(sh.tier)
